@@ -120,6 +120,19 @@ def bsOTicks : List BSIn → Nat
   | [] => 0
   | x :: xs => (if x.tO then 1 else 0) + bsOTicks xs
 
+/-- Two free-running clocks on an integer time axis: i-clock edges every `pi` time units, o-clock edges every
+    `po`; `ni`/`no` = time of the next i/o edge.  An instant is every time point with at least one edge
+    (coincident edges when `ni = no`).  `n` instants are produced.  (The harness's `PeriodicClocks`.) -/
+def perClocks (pi po : Nat) : Nat → Nat → Nat → List (Bool × Bool)
+  | 0, _, _ => []
+  | n + 1, ni, no =>
+    let ti := decide (ni ≤ no)
+    let tO := decide (no ≤ ni)
+    (ti, tO) :: perClocks pi po n (if ti then ni + pi else ni) (if tO then no + po else no)
+
+/-- The clock part of a bus-synchroniser schedule. -/
+def bsClocks (ins : List BSIn) : List (Bool × Bool) := ins.map fun x => (x.ti, x.tO)
+
 /-! ### BusSynchronizer, width 1: `MultiReg(i, o, odomain)` only -/
 
 structure BS1State where
